@@ -273,13 +273,14 @@ type H struct {
 
 	faults []*Fault
 
-	slots    [maxHandles]atomic.Pointer[Handle]
-	nHandles atomic.Int32
-	built    atomic.Int32 // 0 no, 1 ok, 2 failed
-	buildErr error
-	prov     godi.Provider
-	coll     godi.Collection
-	regErrs  []error // error returned by each Add call (by reg index)
+	slots     [maxHandles]atomic.Pointer[Handle]
+	nHandles  atomic.Int32
+	built     atomic.Int32 // 0 no, 1 ok, 2 failed
+	buildErr  error
+	prov      godi.Provider
+	rootScope godi.Scope // what the provider hands out as Scope at provider level (after Build)
+	coll      godi.Collection
+	regErrs   []error // error returned by each Add call (by reg index)
 
 	progs   [][]Op
 	results [][]*OpResult
